@@ -30,6 +30,7 @@ Mk(j) == <<2, j>>               \* PUSH0 j : a marker
 RET == <<48>>
 RAISE == <<0, 32>>              \* FALSE VERIFY
 POP0 == <<6>>
+EMPTY == <<3, 0>>                \* PUSH1 of zero bytes: an empty item
 VERIFY == <<32>>
 CALL(h) == <<42, h>>
 EVAL == <<45>>
@@ -68,7 +69,8 @@ CtlCfg(s) == [BaseCfg EXCEPT !.scripts = <<s>>, !.hist = TRUE, !.maxItems = 64, 
 \* Family "auth": authorization over script lists (C01)
 W1(z) == Bk(1) \cup { DEFN(0, Mk(5)), DEFN(0, RET), DEFN(0, T), WCACHE(<<107>>, 0), Mk(5) \o WCACHE(<<107>>, 1),
                    Mk(5), Mk(5) \o Mk(5), T, Mk(5) \o RET, T \o IFB(Mk(5) \o RET),
-                   DEFN(0, CALL(0)) \o TRY(CALL(0), <<>>), DEFN(2, <<>>) \o CALL(2) \o CALL(2) }
+                   DEFN(0, CALL(0)) \o TRY(CALL(0), <<>>), DEFN(2, <<>>) \o CALL(2) \o CALL(2),
+                   EMPTY, EMPTY \o Mk(5), EMPTY \o EMPTY \o T }        \* zero-length junk below the expected items
 LockHead(z) == { <<>>, T \o IFB(<<>>), T \o IFB(Mk(4) \o POP0), TRY(<<>>, <<>>), F \o IFELSE(<<>>, <<>>), CALL(0), RCACHE(<<107>>),
               DEFN(0, Mk(5)), T \o LOOP(F) \o POP0 \o POP0, IPush(T \o VERIFY) \o EVAL, TRY(CALL(0), <<>>),
               T \o IFB(RET) }
@@ -79,8 +81,8 @@ Limits == { <<64, 64, 4>>, <<2, 64, 4>>, <<64, 64, 1>>, <<64, 64, 2>> }
 AuthCfg(ss, lim) == [BaseCfg EXCEPT !.scripts = ss, !.auth = TRUE, !.hist = TRUE,
                                     !.maxItems = lim[1], !.maxItemSize = lim[2], !.callLimit = lim[3]]
 
-\* raw byte strings over a 12-byte alphabet
-RawAlpha == {0, 1, 2, 6, 32, 42, 43, 45, 48, 61, 69, 255}
+\* raw byte strings over a 13-byte alphabet
+RawAlpha == {0, 1, 2, 3, 6, 32, 42, 43, 45, 48, 61, 69, 255}
 RawStr(n) == UNION {[1..k -> RawAlpha] : k \in 0..n}
 
 ----------------------------------------------------------------------------
